@@ -9,10 +9,12 @@ package main
 
 import (
 	"bufio"
+	"bytes"
 	"encoding/json"
 	"flag"
 	"fmt"
 	"os"
+	"os/exec"
 	"strconv"
 	"time"
 
@@ -152,7 +154,12 @@ func main() {
 			fmt.Fprintln(os.Stderr, "replay:", err)
 			os.Exit(2)
 		}
-		res := execute(d)
+		var res *RunResult
+		if d.Pair != nil {
+			res = replayPair(d)
+		} else {
+			res = execute(d)
+		}
 		res.Switches = nil
 		b, _ := json.Marshal(res)
 		fmt.Println(string(b))
@@ -176,4 +183,67 @@ func envUint(name string, def uint64) uint64 {
 		}
 	}
 	return def
+}
+
+// replayPair executes the two histories of a cross-process finding, each in a
+// fresh process of this same binary, and compares the results of the operations
+// they have in common.
+func replayPair(d *RunDesc) *RunResult {
+	res := &RunResult{Prop: d.Prop, Seed: d.Seed, RunIndex: d.RunIndex}
+	a := d.clone()
+	a.Pair = nil
+	b := d.Pair.clone()
+	b.Pair = nil
+	runOne := func(x *RunDesc, tag string) *RunResult {
+		f, err := os.CreateTemp("", "cvsssim-pair-"+tag+"-*.json")
+		if err != nil {
+			res.Trouble = err.Error()
+			return nil
+		}
+		f.Close()
+		defer os.Remove(f.Name())
+		if err := writeJSON(f.Name(), x); err != nil {
+			res.Trouble = err.Error()
+			return nil
+		}
+		cmd := exec.Command(os.Args[0], "replay", "-file", f.Name())
+		cmd.Env = append(os.Environ(), "CVSSSIM_CROSS_VERBOSE=1")
+		out, err := cmd.Output()
+		if err != nil {
+			res.addViolation("fatal:process died", fmt.Sprintf("history %s: %v", tag, err), 0, -1)
+			return nil
+		}
+		for _, line := range bytes.Split(out, []byte("\n")) {
+			if bytes.HasPrefix(line, []byte(`{"prop":`)) {
+				var r RunResult
+				if json.Unmarshal(line, &r) == nil {
+					return &r
+				}
+			}
+		}
+		res.Trouble = "pair replay: no result from history " + tag
+		return nil
+	}
+	ra, rb := runOne(a, "A"), runOne(b, "B")
+	if ra == nil || rb == nil {
+		return res
+	}
+	for _, r := range []*RunResult{ra, rb} {
+		for _, v := range r.Violations {
+			res.addViolation(v.Sig, v.Detail, v.Task, v.Op)
+		}
+	}
+	first := map[string][3]string{}
+	for _, kv := range ra.Stats.CrossDetail {
+		first[kv[0]] = kv
+	}
+	for _, kv := range rb.Stats.CrossDetail {
+		if p, ok := first[kv[0]]; ok && p[2] != kv[2] {
+			res.addViolation("history:cross-process", fmt.Sprintf("the same operation on the same input gives different results in two processes with different histories.\nkey: %s\nhistory A: %s\nhistory B: %s", kv[1], p[2], kv[2]), 0, -1)
+			break
+		}
+	}
+	res.Stats.Ops = a.nOps() + b.nOps()
+	res.FP = simrt.Mix(ra.FP, rb.FP)
+	return res
 }
